@@ -27,14 +27,23 @@ LawsHoldOnSpec == IsCase =>
        /\ \A s \in SeqRange(c.others) : \A x \in M(c, Spec("ancestor", s, "")) \ {ERR} : x \in AncG(P, c.t) \cap AncG(P, s)
        /\ \A s \in SeqRange(c.others) : (s # Null /\ s \in Anc0(P, c.t)) => M(c, Spec("ancestor", s, "")) = {s}
 WCrissCross(x) == \E s \in SeqRange(x.others) : Cardinality(M(x, Spec("ancestor", s, ""))) > 1
+\* a number qualified with another branch names a revision that the context branch merged (not on its mainline)
+WOtherMerged(x) == \E sp \in Specs(x) : /\ sp.k = "mainline" /\ sp.b = "bnum"
+                                        /\ LET r == BaseO(x.par, "bnum", sp.a, sp.o)
+                                           IN r \in Anc0(x.par, x.t) \ LeftSet(x.par, x.t) /\ M(x, sp) # {r} /\ M(x, sp) # {ERR}
+\* ... or one whose parent is not the context branch's previous number
+WOtherBefore(x) == \E sp \in Specs(x) : /\ sp.k = "before" /\ sp.b = "bnum" /\ sp.a >= 2 /\ sp.a - 1 <= RevnoOf(x.par, x.t)
+                                        /\ M(x, sp) # {LeftHand(x.par, x.t)[sp.a - 1]} /\ ERR \notin M(x, sp)
 WMergedMerge(x) == \E r \in Anc0(x.par, x.t) \ LeftSet(x.par, x.t) : IsMerge(x.par, r)
-SpecTuple(sp) == <<sp.k, sp.a, sp.b>>
+SpecTuple(sp) == <<sp.k, sp.a, sp.b, sp.o>>
 CaseRow(x) == [c |-> x, specs |-> SetToSeq({SpecTuple(sp) : sp \in Specs(x)})]
 \* anti-vacuity: each of these must be reached by some case (checked in the export run: VF_WITNESSES)
 WitnessesReached ==
-    /\ \E x \in Cases : WCrissCross(x)
-    /\ \E x \in Cases : WMergedMerge(x)
-Export == JsonSerialize(IOEnv.VF_OUT, SetToSeq({CaseRow(x) : x \in Sample(Cases)}))
+    /\ \E x \in SmallOnly(Cases) : WCrissCross(x)
+    /\ \E x \in SmallOnly(Cases) : WMergedMerge(x)
+    /\ \E x \in SmallOnly(Cases) : WOtherMerged(x)
+    /\ \E x \in SmallOnly(Cases) : WOtherBefore(x)
+Export == JsonSerialize(IOEnv.VF_OUT, SetToSeq({CaseRow(x) : x \in Picked(Cases)}))
 ASSUME IF "VF_OUT" \in DOMAIN IOEnv THEN Export ELSE TRUE
 ASSUME IF "VF_WITNESSES" \in DOMAIN IOEnv THEN WitnessesReached ELSE TRUE
 =============================================================================
